@@ -372,7 +372,9 @@ def nonsep(rep, pid, tier):
                                    (("bior2.2", "db4"), (129, 140), "zero"), (("haar", "db3"), (150, 131), "reflect")):
         a, b = pywt.Wavelet(wc), pywt.Wavelet(wr)
         x = torch.tensor(rng.standard_normal((2, 2, H, W)))
-        cfg = dict(wavelet_cols=wc, wavelet_rows=wr, H=H, W=W, mode=mode)
+        if n % 2:
+            x = torch.tensor(rng.standard_normal((2, 2, W, H))).transpose(2, 3)      # a non-contiguous (transposed-view) image
+        cfg = dict(wavelet_cols=wc, wavelet_rows=wr, H=H, W=W, mode=mode, contiguous=bool(x.is_contiguous()))
         rep.validated()
         rep.nontriv(("scale_nonsep", wc, wr, H, W, mode))
         n += 1
